@@ -220,3 +220,43 @@ def r6(ctx, R):
 def r7(ctx, R):
     from . import c01
     c01.r1(ctx, R)
+
+
+@rule('C04', 'C04.R8', 'embedded tableaux carry TWO rows of weights: every method of ButcherTableau that reads self.weights is overridden by ButcherTableauEmbedded and reads one row (self.weights[0] for the primary scheme) - an inherited reader would broadcast the last stage row against both rows and, e.g., never find the scheme stiffly accurate', floor=1)
+def r8(ctx, R):
+    repo = ctx.repo
+    rel = 'pySDC/implementations/sweeper_classes/Runge_Kutta.py'
+    base, emb = repo.cls(rel, 'ButcherTableau'), repo.cls(rel, 'ButcherTableauEmbedded')
+
+    def weight_loads(fn):
+        whole, rows = [], []
+        parents = {}
+        for p in ast.walk(fn):
+            for c in ast.iter_child_nodes(p):
+                parents[id(c)] = p
+        for x in ast.walk(fn):
+            if isinstance(x, ast.Attribute) and x.attr == 'weights' and isinstance(x.value, ast.Name) and x.value.id == 'self' and isinstance(x.ctx, ast.Load):
+                p = parents.get(id(x))
+                if isinstance(p, ast.Subscript) and p.value is x and isinstance(p.slice, ast.Constant) and isinstance(p.slice.value, int):
+                    rows.append(p.slice.value)
+                else:
+                    whole.append(x.lineno)
+        return whole, rows
+
+    n = 0
+    for name, fn in base.methods.items():
+        if name == '__init__':
+            continue
+        whole, rows = weight_loads(fn)
+        if not whole and not rows:
+            continue
+        n += 1
+        w = f'{rel}:ButcherTableauEmbedded.{name}'
+        R.fn(w)
+        if name not in emb.methods:
+            R.bad(f'ButcherTableauEmbedded.{name} :: overrides the base-class reader of self.weights', w, f'an override that reads self.weights[0]', f'inherited from ButcherTableau (reads the whole 2 x M array at line {whole[:1]})')
+            continue
+        ew, er = weight_loads(emb.methods[name])
+        R.check(not ew and er, f'ButcherTableauEmbedded.{name} :: reads one row of the weights', w, 'self.weights[0] (primary) / self.weights[1] (embedded)', f'whole-array reads at lines {ew}' if ew else 'no read')
+    if not n:
+        raise AnalysisError('C04.R8: ButcherTableau.globally_stiffly_accurate (the confirmed reader of self.weights) not found')
